@@ -141,6 +141,15 @@ func Check(env *core.Env, rep *core.Report) *core.Result {
 	for i := range jobs {
 		n := 2 + rng.Intn(7)
 		jobs[i] = job{RandomConfig(rng, n, rng.Intn(3) == 0, rng.Intn(4) == 0), rng.Intn(5) == 0}
+		if i%20 == 7 {
+			// a condition that cannot be evaluated INSIDE the nested pipeline (the loop of the nested
+			// Schedule calls Cancel from within the stage goroutine of the including stage)
+			c := RandomConfig(rng, 3+rng.Intn(5), true, false)
+			if len(c.Inner) > 0 {
+				c.Cls[c.Inner[rng.Intn(len(c.Inner))]-1] = "CERR"
+			}
+			jobs[i] = job{c, false}
+		}
 	}
 	execs := make([][]Event, nTraces)
 	oks := make([]bool, nTraces)
